@@ -60,7 +60,9 @@ func ruleG1(p *Prog) *RuleResult {
 							continue
 						}
 					}
-					if why := globalWrite(ins, g); why != "" {
+					if why := globalEscapes(f, ins, g); why != "" {
+						res.bad(c, p.ipos(ins), fmt.Sprintf("package-level variable %s.%s is %s: every caller receives the same memory, so one caller's edit (or append into its spare capacity) shows up in another caller's result", g.Pkg.Pkg.Name(), g.Name(), why))
+					} else if why := globalWrite(ins, g); why != "" {
 						res.bad(c, p.ipos(ins), fmt.Sprintf("package-level variable %s.%s is %s: the memory is shared by every goroutine and every bitmap, so concurrent or interleaved calls on unrelated bitmaps interfere", g.Pkg.Pkg.Name(), g.Name(), why))
 					} else {
 						res.ok(c, p.ipos(ins), "read only")
@@ -209,6 +211,56 @@ func derivedWrite(v ssa.Value, depth int) string {
 			}
 			return "passed to " + name
 		}
+	}
+	return ""
+}
+
+// globalEscapes: ins loads a slice / map / pointer held in global g and an exported function returns it.
+func globalEscapes(f *ssa.Function, ins ssa.Instruction, g *ssa.Global) string {
+	ld, ok := ins.(*ssa.UnOp)
+	if !ok || ld.Op != token.MUL || ld.X != ssa.Value(g) || !hasPointers(ld.Type()) || isErrorType(ld.Type()) {
+		return ""
+	}
+	top := f
+	for top.Parent() != nil {
+		top = top.Parent()
+	}
+	if !isExportedAPI(top) {
+		return ""
+	}
+	seen := map[ssa.Value]bool{}
+	var reach func(v ssa.Value, d int) bool
+	reach = func(v ssa.Value, d int) bool {
+		if d > 6 || seen[v] || v.Referrers() == nil {
+			return false
+		}
+		seen[v] = true
+		for _, r := range *v.Referrers() {
+			switch x := r.(type) {
+			case *ssa.Return:
+				return true
+			case *ssa.Phi:
+				if reach(x, d+1) {
+					return true
+				}
+			case *ssa.Slice:
+				if reach(x, d+1) {
+					return true
+				}
+			case *ssa.ChangeType:
+				if reach(x, d+1) {
+					return true
+				}
+			case *ssa.MakeInterface:
+				if reach(x, d+1) {
+					return true
+				}
+			}
+		}
+		return false
+	}
+	if reach(ld, 0) {
+		return "returned to the caller by " + fname(top)
 	}
 	return ""
 }
